@@ -186,8 +186,9 @@ class Snap(object):
         """Is every byte below `length` (term) determined by a store or the zero fill?  -> (ok, why)"""
         st = self.st
         d = self.d
-        if any(t == ('uninit',) or (t[0] == 'cat' and ('uninit',) in t[1]) for (k, w, t) in d['cells']):
-            return False, 'an uninitialised value was stored into the buffer'
+        from ..terms import maybe_uninit
+        if any(maybe_uninit(st.canon(t)) for (k, w, t) in d['cells']):
+            return False, 'a possibly uninitialised value was stored into the buffer'
         for (k, w, t) in d['cells']:
             if t[0] == 'selw' and t[4] == ('uninit',):
                 return False, 'a getter destination inside the buffer was not initialised before the call'
